@@ -724,6 +724,18 @@ def gen_case(seed, profile='edit'):
             ops.append(['q_value', rng.randrange(nvars)])
         elif k == 'setinit':
             ops.append(['setinit', rng.randrange(nbase), rng.choice(['1', '-2', '0.5', '4', '0'])])
+    if profile == 'annot' and rng.random() < 0.35:
+        # a DOUBLE collision for add_cmeta_id: the display name N of a variable without id and N_ are both taken
+        cands = [i for i, b in enumerate(base) if b[1] is None and b[0].replace('$', '__') + '_' in CMETAS + ['c__x_', 'c__y_', 'c__b_']]
+        free_ = [i for i, b in enumerate(base) if b[1] is None]
+        if free_:
+            v = rng.choice(cands or free_)
+            d_ = base[v][0].replace('$', '__')
+            pat = [['addvar', 'dc$one', d_, None], ['addvar', 'dc$two', d_ + '_', None], ['addcmeta', v], ['q_cmeta', v],
+                   ['q_bycmeta', d_], ['q_bycmeta', d_ + '_'], ['q_bycmeta', d_ + '__'], ['q_hascmeta', d_ + '__']]
+            # indices of the two added variables depend on earlier addvar operations: the pattern goes first
+            ops[ncore:ncore] = pat
+            nvars += 2
     if stray_ops:
         at = rng.randrange(len(ops) + 1) if rng.random() < 0.5 else ncore
         ops[at:at] = stray_ops
